@@ -1158,6 +1158,48 @@ fn main_random(args: &[String]) {
                 run.links_event();
                 raw.extend(run.take());
             }
+            // every other run (capacity >= 2) also starts with a backlog that is only partly consumed:
+            // `cap` loopback datagrams one step apart (so each hand-over has its own instant), readable() +
+            // one receive, then `cap` more - only what the capacity leaves may be accepted; the rest of the
+            // run and the final drain show what the socket really holds
+            if cfg.cap >= 2 && rng.random_bool(0.5) {
+                let a = rng.random_range(1..=n);
+                let pp = cfg.nfixed; // highest fixed port
+                let dst = Dst { k: "lo".into(), h: 0, g: 0, p: pp };
+                run.step(vec![(a, vec![Cmd::Bind { kind: "any".into(), p: pp }])]);
+                run.links_event();
+                for _ in 0..cfg.cap {
+                    run.step(vec![(a, vec![Cmd::Send { p: pp, dst: dst.clone(), len: rng.random_range(2..=9), api: rng.random_range(0..2) }])]);
+                    run.links_event();
+                    sent += 1;
+                    nsend += 1;
+                }
+                run.idle_step();
+                run.links_event();
+                run.idle_step();
+                run.links_event();
+                let first = if rng.random_bool(0.5) {
+                    vec![Cmd::Readable { p: pp }, Cmd::Recv { p: pp, buf: 10, api: 0 }]
+                } else {
+                    vec![Cmd::Recv { p: pp, buf: 10, api: 1 }]
+                };
+                run.step(vec![(a, first)]);
+                run.links_event();
+                for _ in 0..cfg.cap {
+                    run.step(vec![(a, vec![Cmd::Send { p: pp, dst: dst.clone(), len: rng.random_range(2..=9), api: rng.random_range(0..2) }])]);
+                    run.links_event();
+                    sent += 1;
+                    nsend += 1;
+                }
+                run.idle_step();
+                run.links_event();
+                run.idle_step();
+                run.links_event();
+                nrecv += 1;
+                raw.extend(run.take());
+                run.links_event();
+                raw.extend(run.take());
+            }
             let mut zero_last: BTreeMap<u16, u64> = BTreeMap::new();
             let zwin = cfg.gmax / cfg.tick + 12; // covers a script delayed by blocked receives + the latency
             for s in 0..steps {
